@@ -17,6 +17,7 @@ INVARIANT Generated
 INVARIANT CombRule
 INVARIANT PackRoundTrip
 INVARIANT PackShape
+INVARIANT LegacyUnpacks
 INVARIANT Strict
 INVARIANT Injective
 INVARIANT PatchOK
@@ -77,14 +78,14 @@ def key_note(t):
     return ':unit-key' if t[0] in ('set', 'map') and md.has(t[1], 'unit') else ''
 
 
-def check_case(ctx, t, v, nodes, packed, names, schemes=True):
+def check_case(ctx, t, v, nodes, packed, legacy, names, schemes=True):
     """pack() / PACK = model bytes (also under annotations); unpack() / UNPACK of them = the value."""
     tj = terms.type_json(t)
     want = md.norm(t, v)
     rj = md.canon(md.node_json(nodes[0], names))
-    packed = bytes(packed)
+    packed, legacy = bytes(packed), bytes(legacy)
     cls = md.type_class(t)
-    case = {'kind': 'case', 'ty': to_json(t), 'val': to_json(v), 'nodes': to_json(nodes), 'packed': list(packed)}
+    case = {'kind': 'case', 'ty': to_json(t), 'val': to_json(v), 'nodes': to_json(nodes), 'packed': list(packed), 'legacy': list(legacy)}
     what = '%s value %s' % (json.dumps(tj), md.short(rj))
     ctx.count((t, v), nontrivial=t[0] not in PLAIN)
     try:
@@ -121,8 +122,9 @@ def check_case(ctx, t, v, nodes, packed, names, schemes=True):
                 ctx.mismatch('C04:pack:annotated:%s:raises:%s:%s' % (scheme, cls, g[1]), 'pack() under annotations %s raised %s %s: type %s value %s' % (scheme, g[1], g[2], json.dumps(atj), md.short(rj)), case)
                 ok = False
             elif g[1] != packed:
-                ctx.mismatch('C04:pack:annotated:%s:bytes:%s' % (scheme, cls),
-                             'pack() of %s at the annotated type %s = %s; annotations do not change packed data, Tezos: %s' % (md.short(rj), json.dumps(atj), g[1].hex(), packed.hex()), case)
+                # one class for the known shape of the error (the comb is written as nested binary pairs), one per scheme and type class for anything else
+                sig = 'C04:pack:annotated:nested-pairs-instead-of-sequence' if g[1] == legacy else 'C04:pack:annotated:%s:bytes:%s' % (scheme, cls)
+                ctx.mismatch(sig, 'pack() of %s at the annotated type %s = %s; annotations do not change packed data, Tezos: %s' % (md.short(rj), json.dumps(atj), g[1].hex(), packed.hex()), case)
                 ok = False
     # ---- UNPACK
     try:
@@ -206,7 +208,7 @@ def run(ctx):
         t, v = st['ty'], st['val']
         if st['unp'] != (True, v, False):
             raise MachineryError('dump: model Unpack(Pack) is not the value for %r' % (t,))
-        ok = check_case(ctx, t, v, st['nodes'], st['packed'], names)
+        ok = check_case(ctx, t, v, st['nodes'], st['packed'], st['legacy'], names)
         ctx.replayed += 1
         seen_types.add(md.type_class(t))
         for m in st['muts']:
@@ -229,7 +231,7 @@ def replay(ctx, rep):
         run(ctx)
         ok = not ctx.mismatches
     elif c['kind'] == 'case':
-        ok = check_case(ctx, md.tup(c['ty']), md.tup(c['val']), md.tup(c['nodes']), tuple(c['packed']), names)
+        ok = check_case(ctx, md.tup(c['ty']), md.tup(c['val']), md.tup(c['nodes']), tuple(c['packed']), tuple(c['legacy']), names)
     else:
         ok = check_mutant(ctx, md.tup(c['ty']), tuple(c['base']), (c['class'], c['detail'], md.tup(c['patch']), md.tup(c['model'])))
     for m in ctx.mismatches:
